@@ -1351,6 +1351,23 @@ func pumping(r *ev.Run, G *gprops, gs *gstats, vers []int, thorough bool) {
 						atomic.AddInt64(&n, 1)
 					}
 				})
+				// k DISTINCT foreign names / distinct bad values / distinct malformed tokens after the
+				// prefix, for every k <= 300 (round 6, C12-B-r6: a fixed array of 24 slots for the
+				// distinct unsupported names of one vector)
+				kinds := []func(i int) string{
+					func(i int) string { return fmt.Sprintf("Z%03d:N", i) },
+					func(i int) string { return fmt.Sprintf("Z%03d:Q%d", i, i) },
+					func(i int) string { return fmt.Sprintf("W%03d", i) },
+				}
+				safeParallel(r, len(kinds), func(ki int) {
+					var b strings.Builder
+					b.WriteString(p)
+					for k := 1; k <= 300; k++ {
+						b.WriteString("/" + kinds[ki](k))
+						judge(r, G, gs, ver, level, b.String())
+						atomic.AddInt64(&n, 1)
+					}
+				})
 			}
 		}
 	}
